@@ -419,7 +419,7 @@ class XPathToken(Token[ta.XPathTokenType]):
 
         if self.parser.compatibility_mode:
             if issubclass(cls, str):
-                return self.compat_string_value(item)
+                return self.atomic_string_value(item)
             elif issubclass(cls, float) or issubclass(float, cls):
                 return self.number_value(item)
 
@@ -975,6 +975,34 @@ class XPathToken(Token[ta.XPathTokenType]):
             value = format(Decimal(repr(obj)), 'f') if obj else '0'
             return value.rstrip('0').rstrip('.') if '.' in value else value
         return self.string_value(obj)
+
+    def atomic_string_value(self, obj: Any) -> str:
+        """
+        The string value of an item as fn:string() and a cast to xs:string compute it.
+        With the XPath 1.0 parser it is compat_string_value(); with XPath 2.0+ it is
+        string_value(), except that a finite non-zero xs:double/xs:float has the canonical
+        form (F&O "Casting to xs:string"): decimal notation for 1e-6 <= abs(value) < 1e6,
+        otherwise a mantissa with one digit before the point and at least one after it, and
+        an exponent without sign and leading zeros.
+        """
+        if self.parser.version == '1.0':
+            return self.compat_string_value(obj)
+        elif not isinstance(obj, float) or isinstance(obj, bool) \
+                or not math.isfinite(obj) or obj == 0:
+            return self.string_value(obj)
+
+        sign, digits, exponent = Decimal(repr(obj)).as_tuple()
+        assert isinstance(exponent, int)
+        text = ''.join(map(str, digits)).rstrip('0')
+        exponent += len(digits) - 1  # value = d.ddd * 10^exponent
+        prefix = '-' if sign else ''
+        if -6 <= exponent < 6:
+            if exponent < 0:
+                return prefix + '0.' + '0' * (-exponent - 1) + text
+            elif len(text) <= exponent + 1:
+                return prefix + text + '0' * (exponent + 1 - len(text))
+            return prefix + text[:exponent + 1] + '.' + text[exponent + 1:]
+        return '{}{}.{}E{}'.format(prefix, text[0], text[1:] or '0', exponent)
 
     def number_value(self, obj: Any) -> float:
         """
